@@ -164,7 +164,7 @@ def mailbox_oracle(case, impl):
                 if n != b - a + 1:
                     return None  # bounded mailbox rejected some: which ones is not reported; skip exact accounting
                 mine += list(range(a, b + 1))
-            elif op.startswith("t") and rr == "ok":
+            elif op.startswith("t") and "-" not in op and rr == "ok":
                 mine.append(int(op[1:]))
         per.append(mine)
         acc += mine
@@ -197,9 +197,10 @@ def directed_cases(rng, n):
 
     def mk(kind, m, delta, a, b, c, d):
         budget = m + 50
-        progs = [f"t1-{m}", f"t{m+1}", f"t{m+2}", "w0 w0 w0", "w1 w1 w1"]
+        # the third sender is optional: a later Tell would rescue (and so mask) a lost wake-up
+        progs = [f"t1-{m}", f"p t{m+1}", (f"p t{m+2}" if c > 0 else "p"), "w0 w0 w0", "w1 w1 w1"]
         # thread ids: 0 first sender, 1 second, 2 third, 3 worker0, 4 worker1
-        sched = ["0*"] * 8
+        sched = ["0*"] * (3 * m + 8)          # the first sender completes all its Tells (<= 3 macro steps each)
         sched += ["3*"] * (2 + m + delta)     # take, CAS, then one macro step per handled message
         sched += ["1*"] * a + ["3*"] * b + ["2*"] * c + ["4*"] * d
         return f"2 {budget} {kind} | " + " ; ".join(progs) + " | " + " ".join(sched)
@@ -208,7 +209,8 @@ def directed_cases(rng, n):
     for kind, ms in kinds:
         for m in ms:
             for delta in (-1, 0, 1):
-                cases.append(mk(kind, m, delta, 6, 2, 6, 4))
+                cases.append(mk(kind, m, delta, 6, 2, 0, 4))
+            cases.append(mk(kind, m, 0, 6, 2, 6, 4))
     for _ in range(n):
         kind, ms = rng.choice(kinds)
         cases.append(mk(kind, rng.choice(ms), rng.choice([-1, 0, 0, 1]), rng.choice([0, 2, 6]), rng.choice([0, 1, 2]),
